@@ -8,7 +8,7 @@ writes, with astropy only,
     <root>/redux/<run2d>/<PPPP>/<run1d>/spZall-PPPP-MMMMM.fits     (zall=nper > 0)
     <root>/redux/<run2d>/<PPPP>/photoPlate-PPPP-MMMMM.fits         (photoplate='plate')
     <root>/match/<run2d>/<resolve>/<PPPP>/photoPlate-PPPP-MMMMM.fits   (photoplate='match', the SDSS-I/II place)
-    <root>/redux/platelist.fits                                    (platelist=True)
+    <root>/redux/platelist.fits                                    (platelist=True; <root>/flat/ in the flat layout)
 
 (``layout='flat'`` puts every spPlate/photoPlate into ``<root>/flat`` and the redshift files into
 ``<root>/flat/<run1d>``: the ``path=`` convention of readspec) and returns a JSON-able description.
@@ -276,8 +276,8 @@ def write_tree(root, plates, run2d='v5_7_0', run1d=None, layout='tree', zbest=Tr
                                                  ('N_TOTAL', 'i4'), ('STATUS1D', 'S8'), ('RACEN', 'f8'), ('DECCEN', 'f8')])
         for n, rec in enumerate(desc['files']):
             pl[n] = (rec['plate'], rec['mjd'], run2d, run1d, rec['nfiber'], 'Done', 10.0 * n, 1.0 * n)
-        fits.HDUList([fits.PrimaryHDU(), fits.BinTableHDU(pl)]).writeto(os.path.join(topdir, 'platelist.fits'),
-                                                                          overwrite=True)
+        fits.HDUList([fits.PrimaryHDU(), fits.BinTableHDU(pl)]).writeto(
+            os.path.join(flat if layout == 'flat' else topdir, 'platelist.fits'), overwrite=True)
     desc['env'] = env_for(desc)
     return desc
 
